@@ -1,6 +1,8 @@
 import Mp.EscProofs
 import Mp.EscBridge
 import Mp.FactChecks2
+import Mp.RoundTrip
+import Mp.RoundTripGo
 /-! C09 — property theorems (proved in the imported modules; statements are checked there, axioms audited here). -/
 #print axioms Esc.literal_roundtrip
 #print axioms Esc.seq_eq_sim
@@ -11,3 +13,18 @@ import Mp.FactChecks2
 #print axioms Mp.model_unescape_order_independent
 #print axioms Mp.FactChecks.model_unescape_rules
 #print axioms Mp.FactChecks.model_escape_rules
+#print axioms Mp.scanIdent_run
+#print axioms Mp.scan_ident
+#print axioms Mp.parseFunc_call0
+#print axioms Mp.parseFunc_callS
+#print axioms Mp.scan_string
+#print axioms Mp.unescape_token
+#print axioms Mp.pathLoop_keys
+#print axioms Mp.sprint_keyPath
+#print axioms Mp.parse_sprint_keyPath
+#print axioms Mp.sprint_parse_sprint
+#print axioms Mp.go_punct
+#print axioms Mp.go_at
+#print axioms Mp.go_paren
+#print axioms Mp.go_mark
+#print axioms Mp.parse_sprint_keyPath_go
